@@ -13,6 +13,8 @@ func (c *Conversation) processDisconnectedTLV(t tlv, x dataMessageExtra) (toSend
 	c.ake = nil
 
 	c.keys.wipe()
+	// the protocol version belongs to the session that ends here: the next one negotiates again
+	c.version = nil
 
 	return nil, nil
 }
